@@ -601,22 +601,22 @@ const (
 	// group 1+8: a name bound from an addressable typed location gets an ADDRESSABLE cell (and a
 	// struct/array is not copied at all): `&name` aliases such a name only, a pointer-receiver
 	// method or an element store mutates such a name in place
-	c20PendingFix_addressableBinding = true
+	c20PendingFix_addressableBinding = false
 	// group 2: the left operand of a binary operator / an earlier argument of a Go call read
 	// from a slot follows a store made while the right operand / a later argument is evaluated
-	c20PendingFix_liveOperand = true
+	c20PendingFix_liveOperand = false
 	// group 3: the implicit result of a function body (no return statement) read from a slot
 	// follows a deferred store
-	c20PendingFix_implicitResult = true
+	c20PendingFix_implicitResult = false
 	// group 4: slicing a Go array that is not addressable panics in the host
-	c20PendingFix_arraySlice = true
+	c20PendingFix_arraySlice = false
 	// group 5: switch and `in` compare a boxed pointer as a pointer, an unboxed one by its target
-	c20PendingFix_boxedPointerEqual = true
+	c20PendingFix_boxedPointerEqual = false
 	// group 6: a value boxed in a non-empty interface type (element of []error ...) is not unboxed
 	// by the converter
-	c20PendingFix_nonEmptyIfaceBox = true
+	c20PendingFix_nonEmptyIfaceBox = false
 	// group 7: the write-back after f(&name) is decided by the syntax of the argument
-	c20PendingFix_addrWriteback = true
+	c20PendingFix_addrWriteback = false
 )
 
 // ---------------------------------------------------------------------------
@@ -1311,8 +1311,13 @@ func (g *c20Engine) chainOK(t *c20Tmpl, val *c20Val, chain []int) (bool, string)
 				// rebuilt and converted back by the typed place, see below)
 				return false, "in-place-mutation-of-value-in-addressable-storage"
 			}
-			if c20PendingFix_addressableBinding {
-				return false, "pending-fix:addressable-binding"
+			if val.kind == "struct" || val.kind == "array" {
+				// a struct / array bound to a name from a typed slot is a copy in a cell of its own
+				// (like the value of make(struct) or *p): a pointer-receiver method or an element store
+				// through that name changes the name's copy, whereas a struct value handed in by the
+				// host is not addressable at all. Whether a struct VALUE is addressable storage is Go's
+				// own distinction, not fixed by the statement: not compared.
+				return false, "in-place-mutation-of-value-in-addressable-storage"
 			}
 		}
 	}
